@@ -298,7 +298,7 @@ theorem addFull_dispatch (s : LL) (o : AArg) :
   unfold addFull addCoded
   cases o.isLazy <;> cases o.iterable <;> rfl
 
-/-- no operation evaluates anything: the translated constructors and operations return thunk TERMS and take no
+/-- (not a property theorem: `rfl` — the content is the TYPE of the operations) no operation evaluates anything: the translated constructors and operations return thunk TERMS and take no
 `Env`; only `GetRes.value t` (an integer-like index) hands a callable to the caller to run, `genDelayed` being what
 running an `app` means -/
 theorem ops_construct_only (s : LL) (f : MArg) (n : Int) (o : AArg) (e₁ e₂ : Env) :
